@@ -55,10 +55,8 @@ def install_decoder_limits():
         real_sp(state)
         if state["slices_x"] * state["slices_y"] > LIMITS["max_slices"]:
             raise OutOfScope("slices")
-        if state.get("slice_bytes_numerator", 0) > (1 << 20) * max(1, state.get("slice_bytes_denominator", 1)):
-            raise OutOfScope("slice bytes")
-        if state.get("slice_prefix_bytes", 0) > 1024 or state.get("slice_size_scaler", 0) > 1024:
-            raise OutOfScope("slice prefix/scaler")
+        # (slice sizes, prefix bytes and the slice size scaler are deliberately NOT bounded: whatever
+        # they declare, the reader must hit the end of the (small) file and report it)
 
     ps.slice_parameters = slice_parameters
     # transform_parameters looks slice_parameters up in its own module's globals (picture_syntax),
